@@ -33,7 +33,10 @@ TAddr == /\ Is("Addr") /\ l' = l + 1
          /\ Trace[l].port_ok                  \* only "[scrubbed]" or "[scrubbed]:<the port>" is produced
          /\ UNCHANGED <<cur, out>>
 TUnsafeAddr == /\ Is("UnsafeAddr") /\ l' = l + 1 /\ Trace[l].identity /\ UNCHANGED <<cur, out>>
-TNext == TReset \/ TElide \/ TUnsafe \/ TAddr \/ TUnsafeAddr
+\* call sites: the log file the REAL client / server handlers wrote in safe mode, on every failure path (dial, wrap,
+\* SOCKS, relay-phase connection errors carrying both addresses), scanned for the marker addresses / host names
+TLogScan == /\ Is("LogScan") /\ l' = l + 1 /\ Trace[l].leaked = <<>> /\ Trace[l].log_bytes > 0 /\ UNCHANGED <<cur, out>>
+TNext == TReset \/ TElide \/ TUnsafe \/ TAddr \/ TUnsafeAddr \/ TLogScan
 TraceSpec == TInit /\ [][TNext]_tvars
 HW == TLCSet(1, IF l - 1 > TLCGet(1) THEN l - 1 ELSE TLCGet(1))
 TraceAccepted == IF TLCGet(1) = Len(Trace) THEN TRUE ELSE PrintT(<<"REJECTED_AFTER", TLCGet(1)>>) /\ FALSE
